@@ -587,7 +587,12 @@ JUNK = ["}", "} else {", "if (FLAVOR == Linux) {", "} else if (TYPE == build) {"
         "envUnset(A, B)", "setupRequired(", "if (FLAVOR == ) {", "if (FLAVOR == Linux && ) {", "if ((FLAVOR == Linux) {",
         "junk line", "print", "prodDir", "envSet", "Action = build", "Group:", "End:", "Common:", "Flavor = Linux",
         "if (FLAVOR TYPE) {", "if (TYPE == build == exact) {", "} ELSE {", "}else{ ", "if (FLAVOR =~ Lin) {",
-        "if (FLAVOR < Linux64) {", "if (!(FLAVOR == Linux)) {", "if (not FLAVOR == Linux) {", "if (FLAVOR == Linux or TYPE == build) {"]
+        "if (FLAVOR < Linux64) {", "if (!(FLAVOR == Linux)) {", "if (not FLAVOR == Linux) {", "if (FLAVOR == Linux or TYPE == build) {",
+        # the rest of VersionParser's grammar and of _rewrite's archaic forms (correspondence only)
+        "if (FLAVOR !~ Lin) {", "if (FLAVOR <= Linux) {", "if (FLAVOR > Linux) {", "if (FLAVOR >= Linux64) {", "if (1 < 2) {",
+        "if (2 <= 1) {", "if (1 == 1) {", "if (True) {", "if (False || FLAVOR == Linux) {", "if (FLAVOR == Linux and TYPE == build) {",
+        "if (FLAVOR =~ L.n.x) {", "if (10 > 9) {", "File = Foo", "File = Table", "Product = bar", "Qualifiers = \"x y\"",
+        "Action = Setup", "Common:", "Flavor = ANY"]
 
 
 def malform(rng, text):
